@@ -481,8 +481,8 @@ class Sequence:
         for elem in self._data.values():
             try:
                 chans = _channelListSorter(elem.channels)
-            except SequenceConsistencyError:
-                # a subsequence that is itself inconsistent
+            except (SequenceConsistencyError, KeyError):
+                # a subsequence that is itself inconsistent or still empty
                 failmssg = "checkConsistency failed: inconsistent subsequence."
                 log.info(failmssg)
                 if verbose:
